@@ -112,6 +112,11 @@ def main():
                 batches.append(("corpus:" + os.path.basename(f), [op for op, _ in vcore.split_trace(open(f).readlines())]))
             # a broken proof turns the run into a search: thorough budget
             gtier = "thorough" if (proof_broken and tier == "quick") else tier
+            # the source differs from the tree the correspondence was last validated against (pinned_tree.json)
+            # in a package this property is anchored in: search harder (three times the quick budget)
+            state["source_changes"] = vcore.relevant_changes(prop)
+            if gtier == "quick" and state["source_changes"]:
+                gtier = "deep"
             batches.append(("gen", mod.gen(rng, gtier)))
         for name, ops in batches:
             if not ops:
@@ -223,6 +228,7 @@ def main():
             "known_findings_hit": list(known_hit.keys()),
             "regenerated_facts": state["facts"],
             "build_problems": [p[1] for p in problems],
+            "source_changes_since_pinned_tree": state.get("source_changes", []),
         },
         "assumptions": list(getattr(mod, "ASSUMPTIONS", [])),
         "wall_s": round(time.time() - t0, 2),
